@@ -307,7 +307,9 @@ class CallGraph:
             elif isinstance(n, (ast.AugAssign,)) and isinstance(n.target, ast.Name) and n.target.id == name:
                 out.append(None)
             elif isinstance(n, (ast.For, ast.AsyncFor, ast.comprehension)):
-                if any(isinstance(x, ast.Name) and x.id == name for x in ast.walk(n.target)):
+                if isinstance(n.target, ast.Name) and n.target.id == name:
+                    out.append(("elem", n.iter))
+                elif any(isinstance(x, ast.Name) and x.id == name for x in ast.walk(n.target)):
                     out.append(None)
             elif isinstance(n, ast.withitem) and n.optional_vars is not None:
                 if any(isinstance(x, ast.Name) and x.id == name for x in ast.walk(n.optional_vars)):
@@ -445,6 +447,8 @@ class CallGraph:
         for rhs in assigns:
             if rhs is None:
                 types.append(None)
+            elif isinstance(rhs, tuple):
+                types.append(self.elem_type_of(rhs[1], f, depth + 1))
             else:
                 types.append(self.type_of(rhs, f, depth + 1))
         if not types:
@@ -454,6 +458,8 @@ class CallGraph:
             if r is None:
                 if name in f.module.imports or name in _BUILTINS:
                     return EXTERNAL
+            elif r[0] == "const":
+                return self._const_type(r[2], r[1])
             return None
         first = types[0]
         if all(t is first for t in types):
@@ -463,6 +469,104 @@ class CallGraph:
         if is_param and real and all(t is real[0] for t in real) and len(real) == len(types):
             return real[0]
         return None
+
+    def _const_type(self, expr, module):
+        if isinstance(expr, (ast.Constant, ast.List, ast.Tuple, ast.Dict, ast.Set, ast.ListComp, ast.DictComp, ast.SetComp,
+                             ast.JoinedStr, ast.BinOp)):
+            return EXTERNAL
+        if isinstance(expr, ast.Call):
+            fn = expr.func
+            if isinstance(fn, ast.Name):
+                c = module.resolve_class(fn.id)
+                if c is not None:
+                    return c
+                if fn.id in _BUILTINS or (fn.id in module.imports and self.repo.by_dotted(module.imports[fn.id][0]) is None):
+                    return EXTERNAL
+            elif isinstance(fn, ast.Attribute) and isinstance(fn.value, ast.Name):
+                r = module.resolve_name(fn.value.id)
+                if r is None and fn.value.id in module.imports:
+                    return EXTERNAL
+        return None
+
+    def elem_type_of(self, e, f: Func, depth=0):
+        """type of the elements of a list-like expression, when every contribution agrees"""
+        if depth > 6:
+            return None
+        if isinstance(e, (ast.ListComp, ast.SetComp, ast.GeneratorExp)):
+            return self.type_of(e.elt, f, depth + 1)
+        if isinstance(e, (ast.List, ast.Tuple, ast.Set)):
+            ts = [self.type_of(x, f, depth + 1) for x in e.elts]
+            if ts and all(t is ts[0] for t in ts):
+                return ts[0]
+            return None
+        if isinstance(e, ast.Call):
+            if isinstance(e.func, ast.Name) and e.func.id in ("sorted", "list", "reversed", "tuple", "iter", "set") and e.args:
+                return self.elem_type_of(e.args[0], f, depth + 1)
+            return None
+        if isinstance(e, ast.BinOp) and isinstance(e.op, ast.Add):
+            a, b = self.elem_type_of(e.left, f, depth + 1), self.elem_type_of(e.right, f, depth + 1)
+            return a if a is b else None
+        if isinstance(e, ast.Name):
+            dd = self.dominating_def(e, f)
+            contrib = []
+            if dd is not None and not (isinstance(dd, (ast.List,)) and not dd.elts):
+                return self.elem_type_of(dd, f, depth + 1)
+            for rhs in self._assignments_to_name(f, e.id):
+                if rhs is None or isinstance(rhs, tuple):
+                    return None
+                if isinstance(rhs, ast.List) and not rhs.elts:
+                    continue
+                contrib.append(self.elem_type_of(rhs, f, depth + 1))
+            for n in own_nodes(f.node):
+                if isinstance(n, ast.Call) and isinstance(n.func, ast.Attribute) and n.func.attr == "append" \
+                        and isinstance(n.func.value, ast.Name) and n.func.value.id == e.id and n.args:
+                    contrib.append(self.type_of(n.args[0], f, depth + 1))
+            if contrib and all(t is contrib[0] for t in contrib):
+                return contrib[0]
+            return None
+        if isinstance(e, ast.Attribute):
+            tb = self.type_of(e.value, f, depth + 1)
+            if isinstance(tb, Cls):
+                return self.attr_elem_type(tb, e.attr, depth + 1)
+            return None
+        return None
+
+    def attr_elem_type(self, c: Cls, attr, depth=0):
+        key = (id(c), attr, "elem")
+        if key in self._attr_types:
+            return self._attr_types[key]
+        self._attr_types[key] = None
+        contrib = []
+        bad = False
+        for k in c.mro() + self.subclasses(c):
+            for m in k.methods.values():
+                sn = self.self_name(m)
+                if sn is None:
+                    continue
+                for n in own_nodes(m.node):
+                    if isinstance(n, ast.Assign):
+                        for t in n.targets:
+                            if isinstance(t, ast.Attribute) and t.attr == attr and isinstance(t.value, ast.Name) and t.value.id == sn:
+                                if isinstance(n.value, ast.List) and not n.value.elts:
+                                    continue
+                                if isinstance(n.value, ast.Constant) and n.value.value is None:
+                                    continue
+                                contrib.append(self.elem_type_of(n.value, m, depth + 1))
+                            elif isinstance(t, (ast.Tuple, ast.List)) and any(
+                                    isinstance(x, ast.Attribute) and x.attr == attr and isinstance(x.value, ast.Name) and x.value.id == sn for x in t.elts):
+                                bad = True
+                    elif isinstance(n, ast.Call) and isinstance(n.func, ast.Attribute) and n.func.attr in ("append", "insert", "extend", "add"):
+                        r = n.func.value
+                        if isinstance(r, ast.Attribute) and r.attr == attr and isinstance(r.value, ast.Name) and r.value.id == sn and n.args:
+                            if n.func.attr == "extend":
+                                contrib.append(self.elem_type_of(n.args[0], m, depth + 1))
+                            else:
+                                contrib.append(self.type_of(n.args[-1], m, depth + 1))
+        t = None
+        if contrib and not bad and all(x is contrib[0] for x in contrib):
+            t = contrib[0]
+        self._attr_types[key] = t
+        return t
 
     def attr_type(self, c: Cls, attr, depth=0):
         key = (id(c), attr)
@@ -491,6 +595,16 @@ class CallGraph:
         pm = c.lookup(attr)
         if pm is not None and is_property(pm.node):
             types.append(self.ann_type(pm.node.returns, pm.module))
+        ca = c.lookup_attr(attr)
+        if ca is not None and not (isinstance(ca, ast.Constant) and ca.value is None):
+            types.append(self._const_type(ca, c.module))
+        for k in c.mro():
+            for m in k.methods.values():
+                for n in own_nodes(m.node):
+                    if isinstance(n, ast.Assign):
+                        for t in n.targets:
+                            if isinstance(t, ast.Attribute) and t.attr == attr and isinstance(t.value, ast.Name) and t.value.id == k.name:
+                                types.append(self.type_of(n.value, m, depth + 1))
         t = None
         if types:
             real = [x for x in types if x is not None]
@@ -704,6 +818,8 @@ class CallGraph:
                 if isinstance(fn, ast.Name) and fn.id in ("next", "len", "str", "repr", "iter", "hash", "bool") and call.args:
                     dn = {"next": "__next__", "len": "__len__", "str": "__str__", "repr": "__repr__", "iter": "__iter__",
                           "hash": "__hash__", "bool": "__bool__"}[fn.id]
+                    if fn.id in ("str", "repr", "hash", "bool") and not isinstance(self.type_of(call.args[0], f), Cls):
+                        return [], "external"
                     ts = self.dunder_targets(call.args[0], dn, f)
                     if fn.id == "str":
                         ts = ts + [t for t in self.dunder_targets(call.args[0], "__repr__", f) if t not in ts]
@@ -716,7 +832,7 @@ class CallGraph:
                     return pc[0], "hof"
                 # a local bound to a lambda / nested def
                 rhs = self._assignments_to_name(f, fn.id)
-                if rhs and all(isinstance(x, ast.Lambda) for x in rhs):
+                if rhs and all(isinstance(x, ast.Lambda) for x in rhs if not isinstance(x, tuple)) and not any(isinstance(x, tuple) for x in rhs):
                     return [], "lambda"
                 return (pc[0] if pc else []), "unknown"
             return [], "unknown"
@@ -803,7 +919,8 @@ class CallGraph:
                     has_fmt = True
                     for a in list(n.args) + [kw.value for kw in n.keywords]:
                         self._fmt_edges(a, f, out)
-                if isinstance(fnn, ast.Attribute) and fnn.attr in ("add", "discard", "remove", "index", "count", "setdefault", "get", "pop"):
+                if isinstance(fnn, ast.Attribute) and fnn.attr in ("add", "discard", "remove", "index", "count", "setdefault", "get", "pop") \
+                        and any(isinstance(self.type_of(a, f), Cls) for a in n.args):
                     has_cmp = True
             elif isinstance(n, ast.Attribute) and isinstance(n.ctx, ast.Load):
                 p = parent(n)
@@ -819,14 +936,15 @@ class CallGraph:
                     ts = self.dunder_targets(n.value, dn, f)
                     if ts:
                         out.append(Edge(n, ts, "implicit"))
-                if isinstance(n.ctx, ast.Store):
+                if isinstance(self.type_of(n.slice, f), Cls):
                     has_cmp = True
             elif isinstance(n, (ast.For, ast.AsyncFor, ast.comprehension)):
                 ts = self.dunder_targets(n.iter, "__iter__", f) + self.dunder_targets(n.iter, "__next__", f)
                 if ts:
                     out.append(Edge(n.iter, ts, "implicit"))
             elif isinstance(n, ast.Compare):
-                has_cmp = True
+                if any(isinstance(self.type_of(x, f), Cls) for x in [n.left] + list(n.comparators)):
+                    has_cmp = True
                 for op, c in zip(n.ops, n.comparators):
                     if isinstance(op, (ast.In, ast.NotIn)):
                         ts = self.dunder_targets(c, "__contains__", f)
@@ -857,6 +975,10 @@ class CallGraph:
         if isinstance(a, ast.Constant):
             return
         ts = []
+        # typed receivers only: formatting a value whose static type is unknown is assumed
+        # not to enter repository code (documented limitation; ints/strs dominate)
+        if not isinstance(self.type_of(a, f), Cls):
+            return
         for dn in ("__format__", "__str__", "__repr__"):
             for t in self.dunder_targets(a, dn, f):
                 if t not in ts:
